@@ -1,8 +1,258 @@
-/- EmdModel.Mask — (stub; filled in by the property that owns it) -/
-import EmdModel.Protocol
+/-
+  EmdModel.Mask — model of emd/sift.py: get_next_imf_mask, get_mask_freqs (explicit sources) and
+  mask_sift (C07).
+
+  Oracles (library numerics, never re-implemented):
+    X     : Sig → Sig × Bool      single-IMF extraction `get_next_imf` (IMF, continue flag)
+    mask  : Nat → Sig             the i-th mask of one call,  amp·cos(2π z t + 2π i / nphases)
+    unit  : Rat → Nat → Nat → Sig unit-amplitude mask for frequency f, nphases p, phase index i
+    std   : Sig → Rat             np.std
+  The worker pool is `Pool.runPool` (EmdModel.Ensemble): `get_next_imf_mask` maps `X` over the
+  masked signals with `starmap`, then subtracts the mask matrix and averages over the phases.
+-/
+import EmdModel.Ensemble
 
 namespace Mask
+open Pool
 
-def handle (_o : Protocol.Op) : Option String := none
+/-- `get_next_imf_mask` on `nprocesses` workers under schedule σ -/
+def getNextImfMaskPool (σ : Schedule) (X : Sig → Sig × Bool) (mask : Nat → Sig) (p : Nat) (x : Sig) :
+    Sig × Bool :=
+  let m := (List.range p).map mask                       -- the columns of the mask matrix
+  let res := runPool σ X (m.map (Sig.add x))             -- p.starmap(get_next_imf, [X + m[:, i]])
+  (Ensemble.meanOver x.length (List.zipWith Sig.sub (res.map (·.1)) m),   -- (concatenate(imfs) - m).mean(axis=1)
+   (res.map (·.2)).any id)                               -- np.any(continue_flags)
+
+/-- one worker, jobs in order -/
+def getNextImfMask (X : Sig → Sig × Bool) (mask : Nat → Sig) (p : Nat) (x : Sig) : Sig × Bool :=
+  getNextImfMaskPool (Schedule.roundRobin p 1) X mask p x
+
+inductive AmpMode | abs | ratioSig | ratioImf
+  deriving DecidableEq
+
+inductive Amp
+  | scalar (a : Rat)
+  | array (as : List Rat)
+
+inductive FreqSrc
+  /-- first frequency `z` (a float, or what `get_mask_freqs` found for 'zc' / 'if') and the step factor -/
+  | first (z s : Rat)
+  /-- user supplied list -/
+  | list (fs : List Rat)
+
+inductive Err | indexError | valueError | unboundLocalError
+  deriving DecidableEq
+
+def Err.toString : Err → String
+  | .indexError => "IndexError"
+  | .valueError => "ValueError"
+  | .unboundLocalError => "Other:UnboundLocalError"
+
+/-- `get_mask_freqs` with a float first frequency: must lie in (0, 1/2) -/
+def checkFirstFreq (z : Rat) : Except Err Rat :=
+  if z ≤ 0 then .error .valueError
+  else if z < 1 / 2 then .ok z
+  else .error .unboundLocalError
+
+/-- the mask frequencies and the effective cap -/
+def maskFreqs (src : FreqSrc) (cap : Nat) : List Rat × Nat :=
+  match src with
+  | .first z s => ((List.range cap).map fun k => z / s ^ k, cap)
+  | .list fs => (fs, if fs.length < cap then fs.length else cap)
+
+/-- reference deviation the amplitude is a ratio of -/
+def sdFor (std : Sig → Rat) (mode : AmpMode) (x : Sig) (prev : Option Sig) : Rat :=
+  match mode, prev with
+  | .abs, _ => 1
+  | .ratioSig, _ => std x
+  | .ratioImf, none => std x
+  | .ratioImf, some c => std c
+
+def ampAt (amp : Amp) (k : Nat) : Option Rat :=
+  match amp with
+  | .scalar a => some a
+  | .array as => as[k]?
+
+structure Cfg where
+  mode : AmpMode
+  amp : Amp
+  p : Nat
+  thresh : Rat
+
+/-- mask `i` of layer with frequency `f` and amplitude `a` -/
+def layerMask (unit : Rat → Nat → Nat → Sig) (f a : Rat) (p : Nat) (i : Nat) : Sig :=
+  Sig.smul a (unit f p i)
+
+/-- the `while continue_sift` loop of `mask_sift`; `k` = imf_layer, `cols` = columns so far,
+    third argument = mask frequencies not yet used -/
+def maskSiftLoop (σ : Nat → Schedule) (X : Sig → Sig × Bool) (unit : Rat → Nat → Nat → Sig)
+    (std : Sig → Rat) (cfg : Cfg) (cap : Nat) (x : Sig) :
+    Nat → List Sig → List Rat → Except Err (List Sig)
+  | _, _, [] => .error .indexError
+  | k, cols, f :: rest =>
+    match ampAt cfg.amp k with
+    | none => .error .indexError
+    | some a =>
+      if cfg.p = 0 then .error .valueError
+      else
+        let amp := a * sdFor std cfg.mode x cols.getLast?
+        let r := getNextImfMaskPool (σ k) X (layerMask unit f amp cfg.p) cfg.p
+                   (Sig.sub x (Sig.vsum x.length cols))
+        if r.2 && !(k + 1 == cap) && !(decide (Sig.absSum r.1 < cfg.thresh)) then
+          maskSiftLoop σ X unit std cfg cap x (k + 1) (cols ++ [r.1]) rest
+        else .ok (cols ++ [r.1])
+
+/-- `mask_sift(..., ret_mask_freq=True)`: (columns, mask frequencies) -/
+def maskSift (σ : Nat → Schedule) (X : Sig → Sig × Bool) (unit : Rat → Nat → Nat → Sig)
+    (std : Sig → Rat) (cfg : Cfg) (src : FreqSrc) (cap : Nat) (x : Sig) : Except Err (List Sig × List Rat) :=
+  let fc := maskFreqs src cap
+  match maskSiftLoop σ X unit std cfg fc.2 x 0 [] fc.1 with
+  | .ok cols => .ok (cols, fc.1)
+  | .error e => .error e
+
+/-! ## protocol -/
+open Ensemble (lookupTbl close)
+
+def absR (v : Rat) : Rat := if v < 0 then -v else v
+
+/-- unit-mask table: (frequency, phase index, samples) -/
+def lookupUnit (ftol : Rat) (tbl : List (Rat × Nat × Sig)) (f : Rat) (i : Nat) : Sig :=
+  match tbl.find? (fun e => decide (absR (e.1 - f) ≤ ftol) && e.2.1 == i) with
+  | some e => e.2.2
+  | none => []
+
+def parseUnits (vs : List (Option (List Rat))) : Nat → Nat → Option (List (Rat × Nat × Sig))
+  | _, 0 => some []
+  | a, k + 1 => do
+    let key ← (vs[a]?).join
+    let m ← (vs[a + 1]?).join
+    let rest ← parseUnits vs (a + 2) k
+    match key with
+    | [f, i] => if i.den = 1 ∧ 0 ≤ i.num then some ((f, i.num.toNat, m) :: rest) else none
+    | _ => none
+
+def parseStd (vs : List (Option (List Rat))) : Nat → Nat → Option (List (Sig × Rat))
+  | _, 0 => some []
+  | a, k + 1 => do
+    let arg ← (vs[a]?).join
+    let v ← (vs[a + 1]?).join
+    let rest ← parseStd vs (a + 2) k
+    match v with
+    | [s] => some ((arg, s) :: rest)
+    | _ => none
+
+def parseX (vs : List (Option (List Rat))) : Nat → Nat → Option (List (Sig × (Sig × Bool)))
+  | _, 0 => some []
+  | a, k + 1 => do
+    let arg ← (vs[a]?).join
+    let res ← (vs[a + 1]?).join
+    let fl ← (vs[a + 2]?).join
+    let rest ← parseX vs (a + 3) k
+    match fl with
+    | [b] => if b = 0 then some ((arg, (res, false)) :: rest)
+             else if b = 1 then some ((arg, (res, true)) :: rest) else none
+    | _ => none
+
+/-- schedule used by the driver for call number `c`: execution order rotated by `rot + c`,
+    `rot + 1` workers (the proved result does not depend on it) -/
+def rotSchedule (N rot c : Nat) : Schedule :=
+  { order := (List.range N).map (fun j => (j + rot + c) % N), worker := fun j => (j + c) % (rot + 1) }
+
+def smallestMargin (thresh : Rat) (cols : List Sig) : Rat :=
+  cols.foldl (fun m c =>
+    let d := absR (Sig.absSum c - thresh)
+    if d < m then d else m) 1
+
+open Protocol in
+def handle (o : Op) : Option String :=
+  match o.name with
+  | "GNIM" => some <| Id.run do
+      let some p := o.nat? "p" | return "bad-op"
+      let some tol := o.rat? "tol" | return "bad-op"
+      let some rot := o.nat? "rot" | return "bad-op"
+      let some x := o.vec? 0 | return "bad-op"
+      let some masks := Ensemble.takeVecs o.vecs 1 p | return "bad-op"
+      let some tbl := parseX o.vecs (1 + p) p | return "bad-op"
+      if p = 0 then return "err ValueError"
+      if masks.any (fun m => m.length ≠ x.length) then return "bad-op"
+      if masks.any (fun m => !Ensemble.hasEntry tol tbl (Sig.add x m)) then
+        return "oracle-desync extraction-table-misses-a-masked-signal"
+      let X := lookupTbl tol tbl (([] : Sig), false)
+      let r := getNextImfMaskPool (rotSchedule p rot 0) X (fun i => masks[i]?.getD []) p x
+      return s!"ok flag={fmtBool r.2} | {fmtVec r.1}"
+  | "MASKFREQS" => some <| Id.run do
+      let some cap := o.nat? "cap" | return "bad-op"
+      let some src := o.str? "src" | return "bad-op"
+      match src with
+      | "list" =>
+        let some fs := o.vec? 0 | return "bad-op"
+        let fc := maskFreqs (.list fs) cap
+        return s!"ok cap={fc.2} | {fmtVec fc.1}"
+      | "float" | "oracle" =>
+        let some z := o.rat? "z" | return "bad-op"
+        let some s := o.rat? "step" | return "bad-op"
+        if s = 0 then return "bad-op"
+        match (if src = "float" then checkFirstFreq z else .ok z) with
+        | .error e => return s!"err {e.toString}"
+        | .ok z =>
+          let fc := maskFreqs (.first z s) cap
+          return s!"ok cap={fc.2} | {fmtVec fc.1}"
+      | _ => return "bad-op"
+  | "MASKSIFT" => some <| Id.run do
+      let some cap := o.nat? "cap" | return "bad-op"
+      let some src := o.str? "src" | return "bad-op"
+      let some p := o.nat? "p" | return "bad-op"
+      let some thresh := o.rat? "thresh" | return "bad-op"
+      let some tol := o.rat? "tol" | return "bad-op"
+      let some ftol := o.rat? "ftol" | return "bad-op"
+      let some rot := o.nat? "rot" | return "bad-op"
+      let some modeS := o.str? "mode" | return "bad-op"
+      let mode ← match modeS with
+        | "abs" => pure AmpMode.abs
+        | "ratio_sig" => pure AmpMode.ratioSig
+        | "ratio_imf" => pure AmpMode.ratioImf
+        | _ => return "bad-op"
+      let some ampS := o.str? "amp" | return "bad-op"
+      let some nu := o.nat? "nu" | return "bad-op"
+      let some ns := o.nat? "ns" | return "bad-op"
+      let some nx := o.nat? "nx" | return "bad-op"
+      let some x := o.vec? 0 | return "bad-op"
+      let some fs := o.vec? 1 | return "bad-op"        -- user list (src=list), else empty
+      let some as := o.vec? 2 | return "bad-op"        -- amplitude array (amp=array), else [a]
+      let amp ← match ampS, as with
+        | "scalar", [a] => pure (Amp.scalar a)
+        | "array", l => pure (Amp.array l)
+        | _, _ => return "bad-op"
+      let some units := parseUnits o.vecs 3 nu | return "bad-op"
+      let some stds := parseStd o.vecs (3 + 2 * nu) ns | return "bad-op"
+      let some xs := parseX o.vecs (3 + 2 * nu + 2 * ns) nx | return "bad-op"
+      let fsrc ← match src with
+        | "list" => pure (FreqSrc.list fs)
+        | "float" | "oracle" =>
+          let some z := o.rat? "z" | return "bad-op"
+          let some s := o.rat? "step" | return "bad-op"
+          if s = 0 then return "bad-op"
+          match (if src = "float" then checkFirstFreq z else .ok z) with
+          | .error e => return s!"err {e.toString}"
+          | .ok z => pure (FreqSrc.first z s)
+        | _ => return "bad-op"
+      let X := lookupTbl tol xs (([] : Sig), false)
+      let std := lookupTbl tol stds (-1)
+      let unit := fun f (_ : Nat) i => lookupUnit ftol units f i
+      let cfg : Cfg := { mode, amp, p, thresh }
+      match maskSift (rotSchedule p rot) X unit std cfg fsrc cap x with
+      | .error e => return s!"err {e.toString}"
+      | .ok (cols, freqs) =>
+        if cols.any (fun c => c.length ≠ x.length) then
+          return "oracle-desync mask-or-extraction-table-misses-an-input"
+        let needStd := match mode with
+          | .abs => []
+          | .ratioSig => [x]
+          | .ratioImf => x :: cols.dropLast
+        if needStd.any (fun a => !Ensemble.hasEntry tol stds a) then
+          return "oracle-desync std-table-misses-an-input"
+        return s!"ok k={cols.length} cap={(maskFreqs fsrc cap).2} margin={fmtRat (smallestMargin thresh cols)} | {fmtVec freqs}"
+          ++ String.join (cols.map fun c => " | " ++ fmtVec c)
+  | _ => none
 
 end Mask
